@@ -278,7 +278,7 @@ def prov_failure_states(chk: Check) -> None:
         recv = cbf.canon.key(ce[0].func.value)
         cleared = set()
         pc_cls = cb.owner_class
-        for g in (pc_cls.vmethods.values() if pc_cls is not None else []):
+        for g in (pc_cls.emethods.values() if pc_cls is not None else []):
             for n_ in ast.walk(g.node):
                 if isinstance(n_, ast.Assign) and norm(n_.value) == 'None' and g is not cb:
                     cleared |= {norm(t_) for t_ in n_.targets}
